@@ -838,7 +838,7 @@ pub fn main(ctx: &Ctx) -> ! {
     let strat = case_strategy(gc, 6);
     campaign(
         ctx,
-        CampaignCfg { stream: if is11 { "c11" } else { "c12" }, cases: ctx.pick(14_000, if is11 { 300_000 } else { 150_000 }), batch: 256, max_shrink: ctx.pick(800, 3000) },
+        CampaignCfg { stream: if is11 { "c11" } else { "c12" }, cases: ctx.pick(14_000, 300_000), batch: 256, max_shrink: ctx.pick(800, 3000) },
         &strat,
         &mut report,
         &|g: &GenCase| realize(g, &vc),
